@@ -5,7 +5,11 @@ use std::io::{BufRead, Write};
 pub struct Rng(pub u64);
 impl Rng {
     pub fn new(seed: u64) -> Rng {
-        Rng(seed.wrapping_mul(0x9E3779B97F4A7C15).wrapping_add(0x1234567))
+        // scramble the seed: consecutive seeds must not give the same stream shifted by one step
+        let mut z = seed.wrapping_add(0x1234567).wrapping_mul(0xD6E8FEB86659FD93);
+        z = (z ^ (z >> 32)).wrapping_mul(0xD6E8FEB86659FD93);
+        z = (z ^ (z >> 29)).wrapping_mul(0xBF58476D1CE4E5B9);
+        Rng(z ^ (z >> 32))
     }
     pub fn next(&mut self) -> u64 {
         self.0 = self.0.wrapping_add(0x9E3779B97F4A7C15);
